@@ -29,6 +29,7 @@ func propC10() Property {
 			{ID: "C10-R6", Desc: "header/trailer tag tables agree with the shipped specs (= C11-R1): what is built parses back into the same section", Min: 9, Run: c11R1},
 			{ID: "C10-R7", Desc: "re-initialising an existing entry truncates it in the table", Min: 1, Run: c10R7},
 			{ID: "C10-R8", Desc: "byte sums fold bytes; setters always re-initialise the entry", Min: 2, Run: c10R8},
+			{ID: "C10-R15", Desc: "a field is rendered with strconv's rendering of its whole tag", Min: 1, Run: c10R15},
 			{ID: "C10-R14", Desc: "template ranks are looked up with the comma-ok form", Min: 2, Run: c10R14},
 			{ID: "C10-R13", Desc: "entries created by the methods of the group carry the template order (= C13-R13)", Min: 2, Run: c13R13},
 			{ID: "C10-R12", Desc: "parsing into a used message clears every section (= C11-R8)", Min: 4, Run: c11R8},
